@@ -81,7 +81,7 @@ func TestCheck(t *testing.T) {
 	defer r.Finish()
 	r.SetRule("base hellos = first flights captured from real crypto/tls clients (HPKE by the standard library) + echgen offers over the 3 AEADs with/without compression; " +
 		"precondition: accepted unmodified. Mutations: EVERY single-bit flip of the ClientHello body of each base hello (exhaustive per hello), plus wrong-key/wrong-info/wrong-suite/wrong-config-id substitutions, " +
-		"enc and payload truncations/extensions, payload transplants. distinct = distinct (base hello, bit position) or (base hello, substitution kind, parameter) pairs executed after the baseline was accepted")
+		"enc and payload truncations/extensions, payload transplants, honest seals under a suite the held config does not list, bytes appended after the extensions or inside the ECH extension. distinct = distinct (base hello, bit position) or (base hello, substitution kind, parameter) pairs executed after the baseline was accepted")
 	r.Assume("crypto/tls client as the spec-consistent sealer for captured hellos; independent RFC 9180 sender (RFC vectors) for generated ones",
 		"a modified hello that aborts or falls back is fine; only acceptance (or a non-transparent fall-back of a still-valid hello) refutes")
 
